@@ -733,6 +733,17 @@ def num_binop(ctx, name, a, b):
         return SReal(r)
     # bit-precise
     if name == "Pow":
+        if isinstance(b, (int, float)) and not isinstance(b, bool) and b == 2:
+            x = fp_term(a)
+            return SFP(z3.fpMul(RNE, x, x))          # C pow(x, 2.0) is the correctly rounded x*x
+        if isinstance(b, float) and b == 0.5:
+            x = fp_term(a)
+            if ctx.branch(z3.fpLT(x, fp_const(0.0))):
+                # CPython: a negative float ** 0.5 is a COMPLEX number; the path is marked and goes on with NaN
+                ctx.note("x ** 0.5 with x < 0 yields a complex number (bit-precise run)")
+                ctx.recorded.append(("complex-result", True))
+                return SFP(z3.fpNaN(FP64))
+            return SFP(z3.fpSqrt(RNE, x))             # pow(x, 0.5) taken as sqrt(x): same sign / zero / NaN behaviour
         raise Unsupported("** on bit-precise floats")
     if name == "Div" and num_kind(a) == "int" and num_kind(b) == "int":
         # int / int: correctly rounded true quotient; equals fp.div when both operands are
